@@ -80,14 +80,16 @@ class FloatMaker:
         return float(s)
 
 
-def shell_spec(mk, tag, l, K, M, exps=None, coord=None, coeff_dom="!=0"):
-    """symbolic description of a generalized contraction shell"""
+def shell_spec(mk, tag, l, K, M, exps=None, coord=None, coeff_dom="!=0", zeros=()):
+    """symbolic description of a generalized contraction shell; `zeros`: (primitive, column) pairs whose
+    coefficient is exactly 0 (as in generally contracted correlation-consistent sets)"""
     A = coord if coord is not None else [mk.var(f"{tag}{x}") for x in "xyz"]
     if exps is None:
         e = [mk.var(f"{tag}e{k}", ">0") for k in range(K)]
     else:
         e = [mk.const(q) for q in exps]
-    c = [[mk.var(f"{tag}c{k}_{m}", coeff_dom) for m in range(M)] for k in range(K)]
+    zeros = {tuple(z) for z in zeros}
+    c = [[(mk.const(0) if (k, m) in zeros else mk.var(f"{tag}c{k}_{m}", coeff_dom)) for m in range(M)] for k in range(K)]
     return dict(l=l, A=A, exps=e, coeffs=c, tag=tag)
 
 
@@ -230,6 +232,9 @@ def run_case(case, tier="quick", seed=0, do_replay=True):
     )
     if getattr(case, "concrete_only", False):
         return _run_concrete(case, res, t0, do_replay)
+    # a fresh copy of the library per case: module-level state (caches) of gbasis must not leak between cases
+    for m in [m for m in sys.modules if m == "gbasis" or m.startswith("gbasis.")]:
+        del sys.modules[m]
     ctx = core.Ctx(seed=seed)
     ctx.default_timeout = case.query_timeout
     ctx.unify_timeout = getattr(case, 'unify_timeout', 8000)
@@ -347,6 +352,8 @@ def _run_concrete(case, res, t0, do_replay):
     """ground case: the real code is executed on concrete inputs (no symbols); compared with the float oracle"""
     from refs.gauss import FloatOps
 
+    for m in [m for m in sys.modules if m == "gbasis" or m.startswith("gbasis.")]:
+        del sys.modules[m]
     shim.import_gbasis_all()
     shim.uninstall()
     mk = FloatMaker({})
@@ -440,7 +447,7 @@ def _decide_equal(case, ctx, res, mk, key, suf, x, y, do_replay):
     if status == "unsat":
         return "unsat"
     if status == "sat":
-        return _handle_sat(case, ctx, res, mk, key, suf, model, None, do_replay)
+        return _handle_sat(case, ctx, res, mk, key, suf, model, None, do_replay, goal=(goal if node.op != "c" else None))
     res["inconclusive"].append({"key": _k(key, suf), "why": "solver unknown/timeout"})
     return "unknown"
 
@@ -473,7 +480,7 @@ class PathHelper:
         if st == "unsat":
             self.res["discharged"] += 1
         elif st == "sat":
-            _handle_sat(self.case, self.ctx, self.res, self.mk, key, "", model, note, self.do_replay)
+            _handle_sat(self.case, self.ctx, self.res, self.mk, key, "", model, note, self.do_replay, goal=formula)
         else:
             self.res["inconclusive"].append({"key": _k(key, ""), "why": "solver unknown/timeout"})
 
@@ -579,7 +586,81 @@ def _k(key, suf):
     return f"{key[0]}{list(key[1])}{('.' + suf) if suf else ''}"
 
 
-def _handle_sat(case, ctx, res, mk, key, suf, model, note, do_replay):
+def _box_constraints(ctx, goal, size=30):
+    """moderate magnitudes for every input of the query: witnesses with astronomically large or tiny values
+    cannot be reproduced in floating point (underflow), so a bounded model is asked for first"""
+    goals = goal if isinstance(goal, (list, tuple)) else [goal]
+    vs = set()
+    for g in list(goals) + list(ctx.pc):
+        vs |= set(g.varset(ctx))
+    todo, seen = list(vs), set()
+    while todo:  # inputs hidden behind atom definitions
+        v = todo.pop()
+        if v in seen:
+            continue
+        seen.add(v)
+        d = ctx.atom_defs.get(v)
+        if d:
+            arg = d[1]
+            for node in ([arg.n] if arg.n is not None else []) + [ctx.den_list[b] for b, _ in arg.d]:
+                todo.extend(ctx.varset(node))
+    out = []
+    for v in sorted(seen):
+        info = ctx.var_info.get(v, {})
+        if info.get("kind") != "input":
+            continue
+        n = ctx.var_node(v)
+        out.append(Rel("<=", ctx.add(n, ctx.const(Fraction(-size)))))
+        if info.get("dom") in (">0", ">=0"):
+            out.append(Rel(">=", ctx.add(n, ctx.const(Fraction(-1, 20)))))
+        else:
+            out.append(Rel(">=", ctx.add(n, ctx.const(Fraction(size)))))
+    return out
+
+
+def _repair_constraints(ctx, goal, model):
+    """the solver's model gives transcendental atoms (log, exp, Boys) arbitrary values within their axioms.
+    Pin the inputs those atoms depend on to the model's values and the atoms to their true values (a narrow
+    rational interval), so that the next model is consistent with the real functions."""
+    goals = goal if isinstance(goal, (list, tuple)) else [goal]
+    vs = set()
+    for g in list(goals) + list(ctx.pc):
+        vs |= set(g.varset(ctx))
+    extra = []
+    env = core.Env(ctx, base={k: float(v) for k, v in model.items() if ctx.var_info.get(k, {}).get("kind") == "input"}, probe=91)
+    done_inputs = set()
+    for name in sorted(vs):
+        d = ctx.atom_defs.get(name)
+        if not d or d[0] not in ("log", "exp", "boys"):
+            continue
+        arg = d[1]
+        argvars = set()
+        for node in ([arg.n] if arg.n is not None else []) + [ctx.den_list[b] for b, _ in arg.d]:
+            argvars |= set(ctx.varset(node))
+        if any(ctx.var_info.get(v, {}).get("kind") == "atom" for v in argvars):
+            continue  # nested atoms: leave alone
+        for v in argvars:
+            if v in done_inputs or ctx.var_info.get(v, {}).get("kind") != "input":
+                continue
+            done_inputs.add(v)
+            val = Fraction(model[v]) if v in model else Fraction(env[v]).limit_denominator(10**6)
+            extra.append(Rel("==", ctx.add(ctx.var_node(v), ctx.const(-val))))
+            env[v] = float(val)
+        try:
+            true = ctx._numeric_atom(name, env)
+        except Exception:  # noqa: BLE001
+            continue
+        if true != true or abs(true) == float("inf"):
+            continue
+        lo = Fraction(true).limit_denominator(10**12) - Fraction(1, 10**9)
+        hi = lo + Fraction(2, 10**9)
+        n = ctx.var_node(name)
+        extra.append(Rel(">=", ctx.add(n, ctx.const(-lo))))
+        extra.append(Rel("<=", ctx.add(n, ctx.const(-hi))))
+    return extra
+
+
+def _handle_sat(case, ctx, res, mk, key, suf, model, note, do_replay, goal=None):
     """sat: replay on the real code; confirmed -> violation (or known finding)"""
     values = model_to_values(ctx, model or {}, mk.names)
     rec = {"key": _k(key, suf), "note": note}
@@ -593,9 +674,31 @@ def _handle_sat(case, ctx, res, mk, key, suf, model, note, do_replay):
     for j in range(3):
         env = ctx.probe_env(10 + j)
         cands.append({n: Fraction(env[n]).limit_denominator(1000) for n in values})
-    for vals in cands:
+    repaired = 0
+    while cands:
+        vals = cands.pop(0)
         path, rep = write_and_replay(case, vals, key, suf)
         tried.append(rep.get("status"))
+        if rep.get("status") != "reproduced" and goal is not None and model and repaired < 4 and not cands:
+            # witness repair: make the transcendental atoms consistent with the real functions and ask again
+            repaired += 1
+            try:
+                extra = _repair_constraints(ctx, goal, model)
+                # growing boxes 2, 6, 30 with the constant-argument atoms (e.g. the log of a literal) pinned to their
+                # true values; last attempt: all transcendental atoms pinned at the inputs of the last model
+                box = _box_constraints(ctx, goal, size={1: 2, 2: 6, 3: 30, 4: 30}[repaired])
+                if extra or box:
+                    goals = (list(goal) if isinstance(goal, (list, tuple)) else [goal]) + box
+                    if repaired == 4:
+                        goals += extra
+                    else:
+                        goals += [f for f in extra if not f.varset(ctx) - {v for v in f.varset(ctx) if ctx.var_info.get(v, {}).get("kind") == "atom"}]
+                    st2, model2 = ctx.check(goals, timeout=case.query_timeout, kind="repair", want_model=True)
+                    if st2 == "sat" and model2:
+                        model = model2
+                        cands.append(model_to_values(ctx, model2, mk.names))
+            except Exception:  # noqa: BLE001
+                pass
         if rep.get("status") == "reproduced":
             rec.update(replay=path, detail=rep.get("detail"))
             kf = match_known(case.prop, case.cid, _k(key, suf))
@@ -904,16 +1007,104 @@ def run_property(prop, cases, tier, seed, encoded, bounds, assumptions, extra=No
     t0 = time.time()
     procs = procs or int(os.environ.get("VERIF_PROCS", "16"))
     args = [(type(c).__module__, type(c).__name__, c.params, tier, seed) for c in cases]
-    results = []
-    if procs > 1 and len(args) > 1:
-        ctxm = mp.get_context("spawn")
-        with ctxm.Pool(min(procs, len(args)), maxtasksperchild=8) as pool:
-            for r in pool.imap_unordered(_worker, args, chunksize=1):
-                results.append(r)
-    else:
-        for a in args:
-            results.append(_worker(a))
+    results = _run_isolated(args, procs, tier)
     return finish_property(prop, results, tier, seed, encoded, bounds, assumptions, t0, extra=extra, title=title)
+
+
+def _run_isolated(args, procs, tier):
+    """cases run in worker interpreters (sx.worker), `procs` at a time, a few cases per interpreter; a case
+    that overruns its wall budget gets its interpreter killed (z3 does not always honour its own time-out)
+    and is reported as undecided; the rest of its chunk is restarted in a new interpreter"""
+    import queue
+    import threading
+
+    budget = int(os.environ.get("VERIF_CASE_BUDGET", "600" if tier == "quick" else "3600"))
+    chunk_size = int(os.environ.get("VERIF_CHUNK", "4"))
+    todo = queue.Queue()
+    order = sorted(range(len(args)), key=lambda i: 0 if args[i][2].get("heavy") else 1)  # heavy cases first, alone
+    for i in order:
+        todo.put((i, list(args[i])))
+    results = [None] * len(args)
+
+    def cid_of(a):
+        return a[1] + "(" + ",".join(f"{k}={v}" for k, v in sorted(a[2].items())) + ")"
+
+    def undecided(a, why, herr=False):
+        return {"cid": cid_of(a), "prop": "", "obligations": 1, "discharged": 0, "violations": [], "known": [], "samples": [],
+                "harness_errors": [why] if herr else [], "solver_s": 0, "queries": 0, "wall_s": 0,
+                "inconclusive": [] if herr else [{"key": "*", "why": why}]}
+
+    def slot():
+        while True:
+            chunk = []
+            try:
+                while len(chunk) < chunk_size:
+                    chunk.append(todo.get_nowait())
+                    if chunk[-1][1][2].get("heavy"):
+                        break
+            except queue.Empty:
+                pass
+            if not chunk:
+                return
+            while chunk:
+                p = subprocess.Popen([PY, "-W", "ignore", "-m", "sx.worker"], stdin=subprocess.PIPE, stdout=subprocess.PIPE,
+                                     stderr=subprocess.PIPE if not os.environ.get("VERIF_VERBOSE") else None, text=True,
+                                     cwd=VERIF, env=_env())
+                lines = queue.Queue()
+
+                def reader(pp=p, qq=lines):
+                    for line in pp.stdout:
+                        qq.put(line)
+                    qq.put(None)
+
+                threading.Thread(target=reader, daemon=True).start()
+                try:
+                    p.stdin.write(json.dumps({"cases": chunk}))
+                    p.stdin.close()
+                except OSError:
+                    pass
+                current = None
+                alive = True
+                while chunk and alive:
+                    try:
+                        line = lines.get(timeout=budget + 60)
+                    except queue.Empty:
+                        p.kill()
+                        victim = chunk.pop(0)
+                        results[victim[0]] = undecided(victim[1], f"case killed after exceeding its wall-time budget of {budget} s (no verdict)")
+                        alive = False
+                        break
+                    if line is None:
+                        alive = False
+                        break
+                    if line.startswith("BEGIN "):
+                        current = int(line.split()[1])
+                    elif line.startswith("RESULT "):
+                        _, idx, payload = line.split(" ", 2)
+                        results[int(idx)] = json.loads(payload)
+                        chunk[:] = [c for c in chunk if c[0] != int(idx)]
+                if not alive and chunk and p.poll() is not None and current is not None and any(c[0] == current for c in chunk):
+                    # the interpreter died while working on `current`
+                    err = ""
+                    try:
+                        err = (p.stderr.read() or "")[-300:] if p.stderr else ""
+                    except Exception:  # noqa: BLE001
+                        pass
+                    victim = [c for c in chunk if c[0] == current][0]
+                    chunk.remove(victim)
+                    results[victim[0]] = undecided(victim[1], f"worker died (exit {p.returncode}): {err}", herr=True)
+                try:
+                    p.kill()
+                except OSError:
+                    pass
+                p.wait()
+
+    threads = [threading.Thread(target=slot) for _ in range(max(1, min(procs, len(args))))]
+    for t in threads:
+        t.start()
+    for t in threads:
+        t.join()
+    return [r if r is not None else undecided(list(args[i]), "no result returned", herr=True) for i, r in enumerate(results)]
 
 
 def finish_property(prop, results, tier, seed, encoded, bounds, assumptions, t0, extra=None, title=""):
